@@ -4,6 +4,7 @@ mod grow;
 mod ps;
 mod ps_conc;
 mod rr;
+mod rr_conc;
 
 use std::time::{Duration, Instant};
 use vkit::{Args, Json, Report, Rng};
@@ -205,6 +206,39 @@ fn grow_campaign(args: &Args) -> Report {
     rep
 }
 
+fn rr_concurrent(args: &Args) -> Report {
+    use vkit::campaign::{campaign, Budget};
+    let seed = args.u64("seed", 1);
+    let shard = args.u64("shard", 0);
+    let b = Budget::from_args(args);
+    let mut rep = Report::new();
+    dom::install_log_capture();
+    let d = dom::Domain::new(&format!("c11c{}", shard));
+    let mut i = 0u64;
+    let mut tag = 0u64;
+    while i < b.max_progs && !b.expired() {
+        let pi = b.only_prog.unwrap_or(i);
+        let mut rng = Rng::derive(&[seed, shard, pi, 1111]);
+        let cfg = rr_conc::RcCfg { servers: rng.range(1, 2) as usize, requests: rng.range(1, 3) as usize, fire_and_forget: rng.chance(1, 2), responses: rng.range(1, 2) as usize };
+        let desc = Json::obj().set("concurrent_request_response", format!("{:?}", cfg));
+        let replay = format!("c11c --seed {} --shard {} --only-prog {}", seed, shard, pi);
+        if i < 1 {
+            rep.sample(desc.clone());
+        }
+        campaign(&mut rep, &mut rng, &b, "C11", &desc, &replay, vkit::fnv_str(&format!("{:?}", cfg)), &mut |m| {
+            tag += 1;
+            rr_conc::execute(&d.config, cfg, m, tag ^ (shard << 40))
+        });
+        let _ = dom::drain_bad_logs(&[]);
+        i += 1;
+        if b.only_prog.is_some() {
+            break;
+        }
+    }
+    rep.count("programs", i);
+    rep
+}
+
 fn ps_concurrent(args: &Args, prop: &str) -> Report {
     use vkit::sched::Mode;
     let seed = args.u64("seed", 1);
@@ -263,6 +297,7 @@ fn main() {
         "c01c" => ps_concurrent(&args, "C01"),
         "c11" => rr_campaign(&args, "C11"),
         "c15g" => grow_campaign(&args),
+        "c11c" => rr_concurrent(&args),
         "c08r" => rr_campaign(&args, "C08"),
         "warmup" => return,
         other => {
